@@ -20,12 +20,14 @@ EXTENDS Integers, Sequences
 Modes  == {"none", "export", "only"}      \* no export / export, then solve / export only
 Wheres == {"options", "solve", "report", "teardown"}  \* where the signals of the scenario arrive (teardown: while the
                                                        \* backend is being destroyed, after the run)
+\* inherit: the disposition of SIGINT / SIGTERM the process was started with ("ignored": a background job of a
+\* non-interactive shell).  The driver installs its handling either way, so the field appears in no transition.
 Scenarios ==
-  {s \in [mode : Modes, nfiles : 1..2, where : Wheres, sig : {"INT", "TERM"}, nsig : 0..3] :
+  {s \in [mode : Modes, nfiles : 1..2, where : Wheres, sig : {"INT", "TERM"}, nsig : 0..3, inherit : {"default", "ignored"}] :
      /\ (s.mode = "none" => s.nfiles = 1)
      /\ (s.mode = "only" => s.where \in {"options", "teardown"})
      /\ (s.where = "teardown" => s.nsig = 1)
-     /\ (s.nsig = 0 => s.where = "solve" /\ s.sig = "INT")}
+     /\ (s.nsig = 0 => s.where = "solve" /\ s.sig = "INT" /\ s.inherit = "default")}
 
 St0 == [pc |-> "options", reg |-> FALSE, exported |-> 0, delivered |-> 0, cbs |-> 0, late |-> 0, stop |-> FALSE, exit |-> -1]
 
